@@ -2,31 +2,23 @@ package scratch
 
 import (
 	"fmt"
+	"strings"
 	"testing"
 
-	"github.com/bufbuild/protocompile/experimental/ast/printer"
-	"github.com/bufbuild/protocompile/experimental/parser"
-	"github.com/bufbuild/protocompile/experimental/report"
-	"github.com/bufbuild/protocompile/experimental/source"
+	"github.com/bufbuild/protocompile/parser"
+	"github.com/bufbuild/protocompile/reporter"
 )
 
 func TestS(t *testing.T) {
-	for _, text := range []string{
-		"syntax = \"proto3\";\nenum F {\n  F_0 = 0;//c\n}\n",
-		"syntax = \"proto3\";\nenum F {\n  F_0 = 0; //c\n}\n",
-		"syntax = \"proto3\";\nenum F {\n  F_0 = 0;//c\n  F_1 = 1;\n}\n",
-		"syntax = \"proto3\";\nenum F {\n  F_0 = 0;/*c*/\n}\n",
-		"syntax = \"proto3\";\nenum F {\n  F_0 = 0;\n//c\n}\n",
-		"syntax = \"proto3\";\nenum F {\n  F_0 = 0;\n  //c\n}\n",
-		"syntax = \"proto3\";\nenum F {\n  F_0 = 0;\n}//c\n",
-		"syntax = \"proto3\";\nenum F {\n  F_0 = 0;\n}//c\nenum G { G_0 = 0; }\n",
-		"syntax = \"proto3\";//c\nenum F {\n  F_0 = 0;\n}\n",
-		"syntax = \"proto3\";\nenum F {//c\n  F_0 = 0;\n}\n",
-		"syntax = \"proto3\";\nmessage M { message N {\n  int32 x = 1;\n}//c\n}\n",
-	} {
-		r := &report.Report{}
-		f, ok := parser.Parse("a.proto", source.NewFile("a.proto", text), r)
-		got, _ := printer.PrintFile(printer.Options{}, f)
-		fmt.Printf("ok=%v same=%v\n  src=%q\n  got=%q\n", ok, got == text, text, got)
+	for _, text := range []string{"\"\\\xff\"", "\"\\\xff", "x = \"\\\xff\";", "syntax = \"proto3\";\nmessage M { string s = 1 [default = \"\\\xff\"]; }"} {
+		func() {
+			defer func() {
+				if p := recover(); p != nil {
+					fmt.Printf("PANIC for %q: %v\n", text, p)
+				}
+			}()
+			_, err := parser.Parse("a.proto", strings.NewReader(text), reporter.NewHandler(reporter.NewReporter(func(e reporter.ErrorWithPos) error { return nil }, nil)))
+			fmt.Printf("ok for %q: %v\n", text, err)
+		}()
 	}
 }
